@@ -82,8 +82,7 @@ type outcome struct {
 	notReturned  bool
 	ops          int
 	log          []string
-	goBefore     int
-	goAfter      int
+	bubblePanic  string
 	lateEvents   []string
 	ctxErr       error
 	obtainedConn bool
@@ -144,9 +143,17 @@ func peerScript(c *vconn, s scen) {
 
 // runScenario executes one scenario inside a synctest bubble.
 func runScenario(t *testing.T, s scen) (o outcome) {
+	// When the root goroutine of the bubble returns while another goroutine of
+	// the bubble is still durably blocked (a leaked watcher), synctest.Test
+	// panics ("deadlock: ... blocked goroutines remain"): that is the
+	// goroutine-leak detector, decided by the runtime, not by counting.
+	defer func() {
+		if p := recover(); p != nil {
+			o.bubblePanic = fmt.Sprint(p)
+		}
+	}()
 	synctest.Test(t, func(t *testing.T) {
 		start := time.Now()
-		o.goBefore = runtime.NumGoroutine()
 		ctx, cancel := makeCtx(s.CtxKind, s.CtxDeadline)
 		defer cancel()
 		c := newVconn()
@@ -234,7 +241,6 @@ func runScenario(t *testing.T, s scen) (o outcome) {
 		o.ops = after.ops
 		cancel()
 		synctest.Wait()
-		o.goAfter = runtime.NumGoroutine()
 	})
 	return o
 }
@@ -248,6 +254,10 @@ func judge(c *mon.C, s scen, o outcome) bool {
 	cls := fmt.Sprintf("%s/%s/%s", s.CtxKind, s.Event+placeKind(s.Place), peerKind(s.Peer))
 	if s.Timeout != 0 {
 		cls += "/timeout"
+	}
+	if o.bubblePanic != "" && !strings.Contains(o.bubblePanic, "deadlock") {
+		c.Fail("bubble-panic/"+cls, "panic inside the scenario: "+o.bubblePanic, det())
+		return false
 	}
 	if o.notReturned {
 		c.Fail("not-returned/"+cls, "Dial did not return within 2 virtual hours (the bubble was durably blocked with Dial still inside)", det())
@@ -351,9 +361,9 @@ func judge(c *mon.C, s scen, o outcome) bool {
 			return false
 		}
 	}
-	// R5: the watcher goroutine is gone
-	if o.goAfter > o.goBefore {
-		c.Fail("goroutine-leak/"+cls, fmt.Sprintf("%d goroutines before Dial, %d after it returned and the bubble went idle", o.goBefore, o.goAfter), det())
+	// R5: the watcher goroutine is gone (see runScenario)
+	if o.bubblePanic != "" {
+		c.Fail("goroutine-leak/"+cls, "the bubble could not finish after Dial returned (a goroutine started by Dial is still blocked): "+o.bubblePanic, det())
 		return false
 	}
 	c.Class(cls + fmt.Sprintf("/err=%v", err != nil))
@@ -620,7 +630,7 @@ func TestMonitor(t *testing.T) {
 		Property: "C20",
 		Level:    "exploration",
 		Rule: "forced orders in VIRTUAL time (testing/synctest bubble, go1.26.8, -race): a fake net.Conn with real deadline semantics, gates that park any I/O operation before it starts or after it finished, a scripted peer (responsive in 1/2/5 chunks, slow = one chunk per virtual second, silent from chunk j, non-101) and a full event log. Scenario list (fixed, ~900): cancel forced before and after EVERY I/O operation of the handshake (operation count taken from a dry run; write buffers giving 1-3 writes; ws and wss with a TLSClient stub) for cancel and deadline contexts; cancel while blocked on a silent peer; context deadline and Dialer.Timeout shorter/longer than the other or alone for Background/TODO/WithValue/WithCancel/WithDeadline contexts against silent and slow peers; expiry in the dial phase; cancel after Dial returned; non-101 answers; no event at all. " +
-			"Oracle per scenario: nil error => live conn, deadlines cleared; error => obtained conn closed; no conn method after return (3 virtual hours later); context ended before the I/O finished (forced) => errors.Is(err, ctx.Err()); return no later than min(context end, start+Timeout) on silent/slow peers; no spurious failure; goroutine count restored. Plus the unforced race under the real scheduler (cancel after a PRNG-chosen spin), invariants only, outcome histogram in the evidence. distinct = (context kind, event@place, peer, timeout, outcome).",
+			"Oracle per scenario: nil error => live conn, deadlines cleared; error => obtained conn closed; no conn method after return (3 virtual hours later); context ended before the I/O finished (forced) => errors.Is(err, ctx.Err()); return no later than min(context end, start+Timeout) on silent/slow peers; no spurious failure; no goroutine left blocked in the bubble (synctest deadlock detector). Plus the unforced race under the real scheduler (cancel after a PRNG-chosen spin), invariants only, outcome histogram in the evidence. distinct = (context kind, event@place, peer, timeout, outcome).",
 		Assumptions: []string{"virtual time: no wall-clock value decides anything", "when cancellation races with completion (after the last I/O operation) either outcome is accepted, only the invariants are checked"},
 		HangSeconds: 300,
 		Subs: []mon.Sub{
